@@ -299,6 +299,27 @@ def op_rewrite_data(ctx, path):
     ctx.comm.Barrier()
 
 
+def op_weak_fisher(ctx, path, factor):
+    """Harness op (not ESR code): between two barriers rank 0 scales the stored second derivatives (the input of the match
+    stage) - data that constrain the parameters weakly.  With a small factor every parameter lies within one precision step of
+    zero, so match.main enters its rarely used "set parameters to zero" branches."""
+    ctx.comm.Barrier()
+    if ctx.rank == 0:
+        on = ctx.fs_state['on']
+        ctx.fs_state['on'] = False
+        try:
+            p = ctx.scratch + '/' + path
+            out = []
+            with open(p) as f:
+                for ln in f.read().splitlines():
+                    out.append(' '.join('%.7e' % (float(t) * factor) for t in ln.split()))
+            with open(p, 'w') as f:
+                f.write('\n'.join(out) + '\n')
+        finally:
+            ctx.fs_state['on'] = on
+    ctx.comm.Barrier()
+
+
 def op_barrier(ctx):
     ctx.comm.Barrier()
 
@@ -310,7 +331,7 @@ def op_check_results(ctx, runname, compl, **kw):
 
 
 OPS = dict(gen=op_gen, npseed=op_npseed, like=op_like, fit=op_fit, load_subs=op_load_subs,
-           slices=op_slices, simp_inv=op_simp_inv, subs_templates=op_subs_templates, snapshot=op_snapshot, victim=op_victim, rewrite_prior=op_rewrite_prior, rewrite_data=op_rewrite_data, barrier=op_barrier, check_results=op_check_results)
+           slices=op_slices, simp_inv=op_simp_inv, subs_templates=op_subs_templates, snapshot=op_snapshot, victim=op_victim, rewrite_prior=op_rewrite_prior, rewrite_data=op_rewrite_data, weak_fisher=op_weak_fisher, barrier=op_barrier, check_results=op_check_results)
 
 
 def run_program(program, rank, size, scratch, report, comm, fs_state=None, op_plans=None):
